@@ -13,7 +13,8 @@ EXTENDS Session
 CONSTANTS Mode, MaxLen, PostLen, Deep, Prune   \* Deep: all configurations / parrots; Prune: sequence pruning rules of the quick tier
 VARIABLES cfg, hist, ua, ur, ra, rr   \* configuration, call history, UConn model as coded / repaired, predicted results
 
-Sd(base, custom, drop, skipnil, omit) == [base |-> base, custom |-> custom, drop |-> drop, skipnil |-> skipnil, omitpsk |-> omit]
+\* alpn: "spec" = the ALPN extension of the parrot; custom specs may drop it ("none") or offer http/1.1 only ("other")
+Sd(base, custom, drop, skipnil, omit) == [base |-> base, custom |-> custom, drop |-> drop, skipnil |-> skipnil, omitpsk |-> omit, alpn |-> "spec"]
 SdTP == Sd("Chrome-100_PSK", FALSE, <<>>, FALSE, TRUE)
 \* ---------------------------------------------------------------- C20
 C20Specs == { SdTP,                                                                 \* ticket + psk, predefined
@@ -44,7 +45,7 @@ Alphabet(c) ==
   \cup (IF c.sd.custom THEN {Op("Preset", "")} ELSE {})
 
 Passive(op) == IsSetter(op) /\ op.arg \in {"nil", "uninit"}
-SrvRec(max, hrr) == [max |-> max, hrr |-> hrr, keys |-> 1, store |-> TRUE, cookie |-> 0]
+SrvRec(max, hrr) == [max |-> max, hrr |-> hrr, keys |-> 1, store |-> TRUE, cookie |-> 0, alpn |-> <<>>, nonce |-> 0]
 CachedVers(c) == IF ~c.cached THEN 0 ELSE IF NegVers(SdTP, [max |-> c.srvmax]) = 772 THEN 13 ELSE 12
 StaticEnv(c) == [specT |-> SdT(c.sd), specP |-> SdP(c.sd), custom |-> c.sd.custom, skip |-> SdSkip(c.sd), omit |-> c.sd.omitpsk,
                   max |-> SdMax(c.sd), cacheVers |-> CachedVers(c), injVers |-> 0]
@@ -108,14 +109,23 @@ C19Parrots == { Sd("Chrome-100", FALSE, <<>>, FALSE, TRUE),                     
                                    Sd("Chrome-115_PQ_PSK", FALSE, <<>>, FALSE, TRUE), Sd("Chrome-133", FALSE, <<>>, FALSE, TRUE),
                                    Sd("Firefox-105", FALSE, <<>>, FALSE, TRUE), Sd("360Browser-7.5", FALSE, <<>>, FALSE, TRUE) }
                     ELSE {})
-PFeat == [sd \in C19Parrots |-> Feat(sd)]
+\* the same parrot as a custom spec whose ALPN offer differs (C11: ALPN is negotiated afresh on every connection,
+\* also on a resumed one; the server here supports h2 only, so "none" and "other" end without a protocol)
+AlpnVariant(sd, a) == [sd EXCEPT !.custom = TRUE, !.skipnil = TRUE, !.alpn = a]
+AlpnVariants == { AlpnVariant(sd, a) : sd \in {x \in C19Parrots : ~x.custom}, a \in {"none", "other"} }
+PFeat == [sd \in C19Parrots \cup AlpnVariants |-> Feat(sd)]
 \* quick tier: the server keeps its tickets in a store (WrapSession/UnwrapSession, short labels); thorough tier: real
 \* ticket encryption under SetSessionTicketKeys.  keys = which store / which ticket key the server owns.
 \* cookie > 0: the HelloRetryRequest also carries a cookie of that many bytes, which the client has to echo in a cookie
 \* extension the parrots do not have (handshake_client_tls13.go, uTLS section of processHelloRetryRequest)
-C19Srvs == { s \in [max : {771, 772}, hrr : BOOLEAN, keys : {1, 2}, store : {~Deep}, cookie : {0, 1, 32}] :
+\* nonce > 0: the TLS 1.3 server issues its tickets with a ticket_nonce of that many bytes, as OpenSSL / BoringSSL do
+\* (the in-tree server alone always sends an empty one); the PSK of the ticket is derived with it (RFC 8446 4.6.1)
+C19Srvs == { s \in [max : {771, 772}, hrr : BOOLEAN, keys : {1, 2}, store : {~Deep}, cookie : {0, 1, 32}, alpn : {<<"h2">>}, nonce : {0, 1, 8, 32}] :
                /\ s.hrr => s.max = 772
-               /\ s.cookie > 0 => (s.hrr /\ s.keys = 1) }
+               /\ s.cookie > 0 => (s.hrr /\ s.keys = 1)
+               /\ s.nonce > 0 => (s.max = 772 /\ ~s.hrr /\ s.keys = 1 /\ s.cookie = 0) }
+PskParrots == {x \in C19Parrots : PFeat[x].P}
+PlainSrvs == {s \in C19Srvs : s.nonce = 0}
 \* how the application drives the connection (all three are documented uses of BuildHandshakeState: "should only be called
 \* explicitly to inspect/change fields"; SetClientRandom: "BuildHandshakeFirst() must be called before")
 C19Uses == {"hs", "build", "edit"}
@@ -125,10 +135,19 @@ Cd(sd, name, srv, clock, use) == [spec |-> sd, name |-> name, srv |-> srv, clock
                              cache |-> "main", cfgcache |-> TRUE, ops |-> (IF sd.custom THEN <<Op("Preset", "")>> ELSE <<>>) \o UseOps(use),
                              alias |-> <<>>, role |-> "conn", ctl |-> TRUE]
 C19Space(h) ==
-  CASE Len(h) = 0 -> { Cd(sd, "a.example", srv, 0, "hs") : sd \in C19Parrots, srv \in {s \in C19Srvs : s.keys = 1 /\ s.cookie = 0} }
+  CASE Len(h) = 0 -> { Cd(sd, "a.example", srv, 0, "hs") : sd \in C19Parrots, srv \in {s \in C19Srvs : s.keys = 1 /\ s.cookie = 0 /\ s.nonce = 0} }
+                     \* tickets with a ticket_nonce matter to the parrots that can offer them again
+                     \cup { Cd(sd, "a.example", srv, 0, "hs") : sd \in PskParrots, srv \in {s \in C19Srvs : s.nonce > 0} }
+    \* ... the connection after one to a nonce-issuing server goes to that server again (any PSK parrot, any usage)
+    [] Len(h) = 1 /\ h[1].srv.nonce > 0 ->
+                     { Cd(sd, h[1].name, h[1].srv, c, "hs") : sd \in PskParrots, c \in {0, 8} }
+                     \cup { Cd(h[1].spec, h[1].name, h[1].srv, 0, u) : u \in {"build", "edit"} }
     \* the second connection is driven in all three ways when it can meet the first one's session (same parrot, same name)
-    [] Len(h) = 1 -> { Cd(sd, n, srv, c, "hs") : sd \in C19Parrots, n \in C19Names, srv \in C19Srvs, c \in {0, 8} }
-                     \cup { Cd(h[1].spec, h[1].name, srv, c, u) : srv \in C19Srvs, c \in {0, 8}, u \in {"build", "edit"} }
+    [] Len(h) = 1 -> { Cd(sd, n, srv, c, "hs") : sd \in C19Parrots, n \in C19Names, srv \in PlainSrvs, c \in {0, 8} }
+                     \cup { Cd(h[1].spec, h[1].name, srv, c, u) : srv \in PlainSrvs, c \in {0, 8}, u \in {"build", "edit"} }
+                     \* ... and with a different ALPN offer than the first (none / other; "same" is the line above)
+                     \cup (IF h[1].spec.custom THEN {} ELSE
+                           { Cd(AlpnVariant(h[1].spec, a), h[1].name, srv, c, "hs") : a \in {"none", "other"}, srv \in {x \in PlainSrvs : x.cookie = 0}, c \in {0, 8} })
     [] OTHER -> IF Deep
                 THEN { Cd(sd, n, srv, h[2].clock, h[2].use) : sd \in {h[1].spec, h[2].spec}, n \in {h[1].name, h[2].name}, srv \in {h[1].srv, h[2].srv} }
                 ELSE { h[2], [h[1] EXCEPT !.clock = h[2].clock] }
@@ -143,7 +162,28 @@ C19Next == /\ Len(hist) < MaxLen
            /\ UNCHANGED <<cfg, ua, ur, ra, rr>>
 C19Scenario == [kind |-> "C19", conns |-> hist, pred0 |-> mA.outs, pred1 |-> mR.outs,
                 mviol |-> ~C19ModelOK(hist, mA.outs, mA.offs, mA.pre)]
-C19Print == Len(hist) = MaxLen => PrintT(<<"SCN", ToJson(C19Scenario)>>)
+\* ---- connections that exist side by side (C18: legacy_session_id, random and key shares never repeat): after a first
+\* connection filled the cache, n connections are BUILT from the same cache entry before any of them handshakes
+\* ("built"), or one session taken from another cache is handed to n UConns through SetSessionTicketExtension ("given").
+ParOps(sd, mode) == (IF sd.custom THEN <<Op("Preset", "")>> ELSE <<>>)
+                    \o (IF mode = "built" THEN <<Op("Build", ""), Op("Yield", "")>>
+                        ELSE <<[op |-> "SetTicket", arg |-> "init", from |-> "side12", forge |-> FALSE, label |-> <<>>]>>
+                             \o (IF mode = "given-built" THEN <<Op("Build", ""), Op("Yield", "")>> ELSE <<>>))
+                    \o HSop
+ParConn(sd, srv, mode) == [Cd(sd, "a.example", srv, 0, "hs") EXCEPT !.ops = ParOps(sd, mode), !.role = "par", !.ctl = FALSE]
+\* parrots whose configuration does not ask for an error when the session does not fit (empty PSK without OmitEmptyPsk,
+\* missing extension without PreferSkipResumptionOnNilExtension): those outcomes are judged in the sequential histories
+ParParrots == {x \in C19Parrots : x.omitpsk /\ (x.custom => x.skipnil)}
+ParScenarios ==
+  { [kind |-> "C19", conns |-> <<Cd(sd, "a.example", srv, 0, "hs")>> \o [i \in 1..n |-> ParConn(sd, srv, "built")], pred0 |-> <<>>, pred1 |-> <<>>, mviol |-> FALSE] :
+      sd \in {x \in ParParrots : PFeat[x].T \/ PFeat[x].P}, srv \in {x \in PlainSrvs : x.keys = 1 /\ x.cookie = 0}, n \in {2, 3} }
+  \cup
+  { [kind |-> "C19", conns |-> <<[Cd(SdTP, "a.example", srv, 0, "hs") EXCEPT !.cache = "side12", !.role = "seedB", !.ctl = FALSE]>>
+                               \o [i \in 1..n |-> ParConn(sd, srv, mode)], pred0 |-> <<>>, pred1 |-> <<>>, mviol |-> FALSE] :
+      \* the session comes from an EMS connection: handing it to a spec without extended_master_secret is the caller's mistake
+      sd \in {x \in ParParrots : PFeat[x].T /\ PFeat[x].ems}, srv \in {x \in C19Srvs : x.max = 771 /\ x.keys = 1}, n \in {2, 3}, mode \in {"given", "given-built"} }
+C19Print == /\ Len(hist) = MaxLen => PrintT(<<"SCN", ToJson(C19Scenario)>>)
+            /\ hist = <<>> => \A sc \in ParScenarios : PrintT(<<"SCN", ToJson(sc)>>)
 C19Model == C19ModelOK(hist, mR.outs, mR.offs, mR.pre)
 
 Init == IF Mode = "C20" THEN C20Init /\ mA = 0 /\ mR = 0 ELSE C19Init
